@@ -134,6 +134,25 @@ func load(repo, config, fixture string) (*Loaded, error) {
 			l.Notes = l.restoreIdentities()
 		}
 		l.Notes = append(append(unrolled, l.orderNotes...), l.Notes...)
+		if l.identityErr == nil {
+			hof, err := func() (notes []string, err error) {
+				defer func() {
+					if e := recover(); e != nil {
+						err = fmt.Errorf("internal: %v", e)
+					}
+				}()
+				return l.specialiseCallbacks()
+			}()
+			if err != nil {
+				// the trees were touched: load again without this step
+				fmt.Fprintln(os.Stderr, "note: callbacks not specialised:", err)
+				prev := skipHOF
+				skipHOF = true
+				defer func() { skipHOF = prev }()
+				return load(repo, config, fixture)
+			}
+			l.Notes = append(l.Notes, hof...)
+		}
 		if l.identityErr != nil {
 			// the trees were touched: load again and judge the program as it is written
 			fmt.Fprintln(os.Stderr, "note:", l.identityErr)
@@ -555,4 +574,29 @@ func normalizeAST(f *ast.File) {
 		}
 		return true
 	})
+}
+
+// authFidField: the name of the field of tauth that carries the authentication fid - the only
+// field of that struct whose type is fid (Authenticationfid on the pinned tree; the rules go by
+// the type so that a respelling of the name does not matter).
+func (l *Loaded) authFidField() string {
+	name := "Authenticationfid"
+	nt := l.namedType("p9", "tauth")
+	if nt == nil {
+		return name
+	}
+	st, ok := nt.Underlying().(*types.Struct)
+	if !ok {
+		return name
+	}
+	var found []string
+	for i := 0; i < st.NumFields(); i++ {
+		if ft, ok := st.Field(i).Type().(*types.Named); ok && ft.Obj().Name() == "fid" && ft.Obj().Pkg() == nt.Obj().Pkg() {
+			found = append(found, st.Field(i).Name())
+		}
+	}
+	if len(found) == 1 {
+		return found[0]
+	}
+	return name
 }
